@@ -60,6 +60,10 @@ namespace occa {
             break;
           }
           ++tokenContext;
+          // A trailing comma: enum e { a, };
+          if (!(token_t::safeType(tokenContext[0]) & tokenType::identifier)) {
+            break;
+          }
           source = (tokenContext[0]->clone()->to<identifierToken>());
         }
       }
